@@ -7,7 +7,7 @@ CONSTANTS
   NRs = {2,3,5}
   NRhos = {2,4}
   Faults = FALSE
-  FlushFixed = FALSE
+  FlushFixed = TRUE
 INVARIANT TypeOK
 INVARIANT NoStuck
 INVARIANT C03_ElementsOnce
